@@ -361,6 +361,40 @@ def flowspec_component_types(prog, rep):
     rep.floor('R07.m', 'flowspec component types decoded', len(dec), 11)
 
 
+def one_nlri_per_route(prog, rep):
+    nfun = 0
+    bad = []
+    for f in prog.all_functions():
+        if not f.module.name.startswith(('yabgp.message.attribute.nlri', 'yabgp.message.attribute.mpreachnlri',
+                                         'yabgp.message.attribute.mpunreachnlri')) or not f.name.startswith('construct'):
+            continue
+        nfun += 1
+        params = set(p for p in f.params if p not in ('cls', 'self'))
+        for n in ast.walk(f.node):
+            if isinstance(n, ast.For) and isinstance(n.iter, ast.Name) and n.iter.id in params and \
+                    isinstance(n.target, ast.Name):
+                for b in n.body:
+                    for a in ast.walk(b):
+                        if isinstance(a, ast.Assign) and isinstance(a.targets[0], ast.Subscript) and \
+                                isinstance(a.value, ast.Name) and a.value.id == n.target.id:
+                            bad.append((f, a, 'stores each route under the key %s' % src_of(a.targets[0].slice)))
+            if isinstance(n, ast.Call) and isinstance(n.func, ast.Name) and n.func.id in ('set', 'frozenset') and \
+                    n.args and isinstance(n.args[0], ast.Name) and n.args[0].id in params:
+                bad.append((f, n, 'turns the route list into a set'))
+            if isinstance(n, ast.DictComp) and isinstance(n.generators[0].iter, ast.Name) and \
+                    n.generators[0].iter.id in params and isinstance(n.value, ast.Name) and \
+                    isinstance(n.generators[0].target, ast.Name) and n.value.id == n.generators[0].target.id:
+                bad.append((f, n, 'keys the routes by %s' % src_of(n.key)))
+    for f, n, why in bad:
+        key = 'route-list-folded:%s' % f.qualname.split('yabgp.message.attribute.')[-1]
+        rep.bad('R07.o', key, file=f.file, line=n.lineno, func=f.qualname,
+                found='%s %s before encoding: two routes of one attribute that agree on that key are written once' % (
+                    f.qualname, why), expected='one NLRI per element of the list', key=key)
+    if not bad:
+        rep.ok('R07.o', 'route-lists', found='%d construct functions, none folds its route list' % nfun)
+    rep.floor('R07.o', 'NLRI construct functions', nfun, 20)
+
+
 def stateless_codecs(prog, rep):
     """R07.n: the NLRI codecs keep nothing between calls - no write to module, class or configuration state
     (one decoded value must not depend on the values decoded before it)."""
@@ -409,6 +443,8 @@ def check(prog, rep, tier):
     rep.rule('R07.n', 'NLRI codecs are stateless: no function of the NLRI / MP_REACH / MP_UNREACH codecs writes module, '
                       'class or configuration state, so a value\'s round trip never depends on earlier calls (a memo '
                       'table keyed by the complete, un-rebound argument list is the one exception)')
+    rep.rule('R07.o', '1..n routes per attribute: no NLRI encoder folds the route list it is given into a dictionary or set '
+                      '(a key that leaves out part of the route merges distinct routes; the decoded list comes back shorter)')
     rep.rule('R07.l', 'unsigned wire: no signed struct code in any format string of the NLRI / MP codecs')
     rep.assumptions += ['value equality of the round trip is not decided',
                         'a MAC address has six groups (b"".join of one octet per group is 6 octets)']
@@ -562,6 +598,35 @@ def check(prog, rep, tier):
     else:
         rep.bad('R07.c', 'rd-size', file=f.file, line=f.node.lineno, func=f.qualname,
                 found='route distinguisher encoded in %s octets' % sorted(sizes), expected='8', key='rd-size')
+    # the decoder leaves the label loop on the bottom-of-stack bit only: any other exit (a "special" label value)
+    # cuts a deeper stack short, and the labels left over are read as RD / prefix octets
+    import re as _re
+    for qual in ('yabgp.message.attribute.nlri.NLRI.parse_mpls_label_stack', VPN + '.parse_mpls_label_stack'):
+        f = prog.func(qual)
+        key = 'label-loop-exit:%s' % qual.split('.')[-2]
+        brk = [n for n in ast.walk(f.node) if isinstance(n, ast.Break)]
+        badb = None
+        for b in brk:
+            conds = common.conds_at(f.node, b)
+            inner = conds[-1] if conds else None
+            txt = src_of(inner[0]) if inner else ''
+            t = inner[0] if inner else None
+            if isinstance(t, ast.Compare) and len(t.ops) == 1 and isinstance(t.ops[0], (ast.NotEq, ast.Eq)) and \
+                    prog.try_fold(t.comparators[0], f.module, f.cls) == (0 if isinstance(t.ops[0], ast.NotEq) else 1):
+                t = t.left
+            sbit_test = isinstance(t, ast.BinOp) and isinstance(t.op, ast.BitAnd) and \
+                1 in (prog.try_fold(t.right, f.module, f.cls), prog.try_fold(t.left, f.module, f.cls))
+            if not (inner and inner[1] and sbit_test):
+                badb = (b, txt)
+        if badb:
+            rep.bad('R07.f', key, file=f.file, line=badb[0].lineno, func=qual,
+                    found='the label loop is also left when `%s`: a stack whose non-bottom label has that value is cut '
+                          'short and the remaining labels are taken for the RD / prefix' % badb[1],
+                    expected='leave the loop on the S bit only', key=key)
+        elif brk:
+            rep.ok('R07.f', key, file=f.file, line=brk[0].lineno, found='%d exit(s), S bit only' % len(brk))
+        else:
+            rep.undecided('R07.f', key, file=f.file, line=f.node.lineno, found='no break in the label loop')
     # label entries
     for qual in ('yabgp.message.attribute.nlri.NLRI.construct_mpls_label_stack',
                  VPN + '.construct_mpls_label_stack'):
@@ -724,6 +789,9 @@ def check(prog, rep, tier):
 
     # ---------------------------------------------------------------- R07.n
     stateless_codecs(prog, rep)
+
+    # ---------------------------------------------------------------- R07.o
+    one_nlri_per_route(prog, rep)
 
     # ---------------------------------------------------------------- R07.d
     def const_compares(qual, var):
